@@ -166,7 +166,7 @@ func addMovFallbackEncodings() {
 			Encodings: []Encoding{
 				{
 					Opcode: Opcode{Byte: "8C"},
-					ModRM:  &Modrm{Mode: "11", Reg: "#1", Rm: "#1"},
+					ModRM:  &Modrm{Mode: "11", Reg: "#1", Rm: "#0"},
 				},
 			},
 		},
